@@ -29,13 +29,26 @@ fn raise(s: SimSegv) {
     std::panic::panic_any(s)
 }
 
-/// `std::slice::from_raw_parts` on a simulated address cannot be emulated: harness error.
-pub unsafe fn slice_from_raw_parts<'a, T>(p: *const T, n: usize) -> &'a [T] {
-    if !world::is_host(p as u64) {
-        eprintln!("HARNESS-ERROR simos: slice::from_raw_parts on simulated address {:#x}", p as u64);
-        std::process::exit(2);
+/// `std::slice::from_raw_parts` on a simulated address: a snapshot of the bytes as they are now
+/// (read through the simulated address space, so an unreadable range is a simulated SIGSEGV). The
+/// copy is leaked; code that expects to see later writes through the slice would not, but every
+/// use met so far reads it at once (comparisons, copies).
+pub unsafe fn slice_from_raw_parts<'a, T: Copy>(p: *const T, n: usize) -> &'a [T] {
+    if world::is_host(p as u64) || n == 0 {
+        return std::slice::from_raw_parts(p, n);
     }
-    std::slice::from_raw_parts(p, n)
+    let bytes = n * std::mem::size_of::<T>();
+    let data = match world::with_world(|w| w.mem_read(p as u64, bytes)) {
+        Ok(v) => v,
+        Err(sg) => {
+            raise(sg);
+            vec![0u8; bytes]
+        }
+    };
+    let mut out: Vec<T> = Vec::with_capacity(n);
+    std::ptr::copy_nonoverlapping(data.as_ptr(), out.as_mut_ptr() as *mut u8, bytes);
+    out.set_len(n);
+    Box::leak(out.into_boxed_slice())
 }
 
 /// Replacement for `std::ptr` inside the transplanted crate.
